@@ -499,7 +499,8 @@ def plan(tier, seed):
 def run_shard(shard, rec):
     P = fixture.pyro()
     r = gen.rng(rec.seed, "c02", shard["i"])
-    fx = fixture.Fixture(servertype=shard["servertype"], COMMTIMEOUT=0.0)
+    fx = fixture.Fixture(servertype=shard["servertype"], COMMTIMEOUT=0.0, variant=fixture.variant_for(rec.seed, "c02", repr(sorted(shard.items()))))
+    rec.count("fixture_variant:" + fx.variant)
     try:
         if shard["i"] == 0:
             check_decoration(P, rec)
